@@ -225,6 +225,8 @@ def parseAnyOp (s : String) : Option AnyOp :=
   | ['E'] => some (.c .isEndStream)
   | ['X'] => some (.c .drop)
   | 'W' :: rest => (unhexL rest).map fun b => .p (.write b)
+  | 'V' :: rest =>   -- `write_vectored`: comma-separated hex slices
+    ((String.ofList rest).splitOn ",").mapM unhex |>.map fun ss => .p (.write (firstNonEmpty ss))
   | 'P' :: rest => (String.ofList rest).toNat?.map fun w => .c (.poll w)
   | 'G' :: 'W' :: rest =>
     match (String.ofList rest).splitOn ":" with
